@@ -1,5 +1,7 @@
 """C12 - group-exchange modulus size is measured and rated correctly."""
 import copy
+import json
+import re
 import itertools
 
 from .. import gen, report, wire
@@ -68,9 +70,24 @@ def cases(seed, tier):
         if len(ALGSETS[ai]) == 2 and r2.random() < 0.3:
             # the two group-exchange algorithms are served from different moduli sets: each is measured and rated on its own
             prof['gex']['sizes_by_alg'] = {r2.choice(ALGSETS[ai]): sorted(r2.sample(SIZES, r2.randrange(1, 4)))}
-        yield {'kind': 'clean', 'profile': prof, 'bclass': bclass,
+        r3 = gen.case_rng(seed, ID, i, 'after')
+        after = None
+        if r3.random() < 0.12:
+            # audited as the second target of one invocation, after a server whose group exchange hands out another size:
+            # what is reported for this server is what this server handed out
+            after = {'sizes': [r3.choice([s_ for s_ in (1024, 2048, 4096) if s_ not in sub] or [1024])], 'style': 'roundup'}
+        yield {'kind': 'clean', 'after': after, 'profile': prof, 'bclass': bclass,
                'opts': rng.choice([['-n'], ['-n'], ['-j'], ['-n', '-v'], ['-n', '-b']]), 'net': gen.rand_net(rng) if rng.random() < 0.5 else {'rtt_us': 100},
                'knobs': gen.rand_knobs(rng), 'pseed': rng.getrandbits(32)}
+    # directed: servers for which no probe can obtain a modulus (strict selection, everything above 4096), audited after one that hands out a size
+    k = 0
+    for sub in ((6144,), (8192,), (6144, 8192)):
+        for ai in range(3):
+            for bclass in ('openssh', 'other'):
+                rng = gen.case_rng(seed, ID, 'after-none', k)
+                k += 1
+                yield {'kind': 'clean', 'after': {'sizes': [rng.choice([1024, 2048, 4096])], 'style': 'roundup'}, 'profile': mk(sub, 'strict', ALGSETS[ai], bclass, rng), 'bclass': bclass,
+                       'opts': rng.choice([['-n'], ['-j']]), 'net': {'rtt_us': 100}, 'knobs': {}, 'pseed': rng.getrandbits(32)}
     for i in range(NFAULTY[tier] // 4):
         # directed: an OpenSSH server whose first pass ends at 2048 through the fallback, and a fault at one of the last probes
         rng = gen.case_rng(seed, ID, 'fd', i)
@@ -136,9 +153,33 @@ def run_case(case, ctx):
     out, keys = [], []
     argv = list(case['opts']) + ['--skip-rate-test', '-t', str(case.get('timeout', 3)), 'srv.example:2222']
     plan = gen.server_plan(case['pseed'], argv, case['profile'], port=2222, net=case['net'], knobs=case.get('knobs'), faults=case.get('faults'))
+    if case.get('after'):
+        from . import multi
+        other = copy.deepcopy(case['profile'])
+        other['gex'] = dict(case['after'])
+        other['banner'] = 'SSH-2.0-Sim_1.0'
+        two = [{'kind': 'server', 'host': 'other.example', 'ip': '192.0.2.9', 'port': 2222, 'profile': other},
+               {'kind': 'server', 'host': 'srv.example', 'ip': '192.0.2.10', 'port': 2222, 'profile': case['profile']}]
+        plan = multi.multi_plan({'targets': two, 'pseed': case['pseed'], 'sched': {'policy': 'run_to_block', 'seed': 0}, 'net': case['net'], 'knobs': case.get('knobs') or {}, 'timeout': 3},
+                                list(case['opts']), 1, ctx.scratch())
     rec = ctx.run(plan)
     if rec.get('harness_error'):
         return {'violations': [], 'keys': []}
+    if case.get('after'):
+        mine = None
+        if any(o in ('-j', '-jj') for o in case['opts']):
+            doc, err = report.parse_json(rec['stdout'])
+            for d_ in doc if isinstance(doc, list) else []:
+                if multi.json_target(d_, two) == 1:
+                    mine = json.dumps(d_)
+        else:
+            for b in re.split(r'(?m)^-{80}$', rec['stdout']):
+                if multi.block_target(report.strip_ansi(b), two) == 1:
+                    mine = b
+        if mine is None:
+            return {'violations': [viol('C12 no result for the second target', rec['stdout'][-400:])], 'keys': []}
+        srv2 = next(s_ for s_ in rec['servers'] if s_['name'] == 'srv.example')
+        rec = dict(rec, stdout=mine, servers=[srv2])
     if rec['outcome'] != 'exit' or rec['status'] not in (0, 2, 3):
         out.append(viol('C12 audit did not complete (status %s, %s)' % (rec['status'], rec['outcome']), 'faults=%r\n%s' % (case.get('faults'), rec['stdout'][-800:])))
         return {'violations': out, 'keys': []}
